@@ -10,6 +10,7 @@ type Stage struct {
 	QuickSec    float64 // wall-clock cap
 	ThoroughSec float64
 	MemGB       int // ulimit -v for workers (0 = none)
+	HeapGB      int // heap watchdog inside the worker (0 = worker default)
 	Workers     int // cap on workers (0 = tier default)
 }
 
@@ -30,7 +31,50 @@ var commonAssumptions = []string{
 	"the instrumented build (go/ast rewrite + -overlay) behaves like the working tree apart from the inserted scheduling points, simulated channel operations, clock and knobs",
 }
 
+var hdecStub = []string{"the disk under the root bit reader (io.ReadSeeker with planned faults)", "at-rest corruption of the stored bytes", "one-task simulation for the watchdog"}
+var hdecReal = []string{"pkg/decode (decode, recover, gap filling, post processing)", "all of format/* reachable from the chosen group", "pkg/bitio, pkg/ranges, pkg/scalar", "interp.DefaultRegistry"}
+
 var plans = map[string]Plan{
+	"C06": {
+		Stages: []Stage{
+			{Harness: "hdec", Config: "default", Quick: 60000, Thorough: 2000000, QuickSec: 75, ThoroughSec: 2400, MemGB: 4, HeapGB: 2},
+		},
+		Rule: "one run = one decode of a corpus sample (<= 16 KiB, thorough: sometimes <= 256 KiB) with its natural format, the probe or a foreign format, force on/off, through decode.Decode over IOBitReadSeeker(simulated disk) so that every field read is a disk call, under one tape-chosen storage fault: abort at the k-th disk call of the fault-free decode (transient EIO, persistent EIO, early EOF, cancel), truncation at a byte offset (consecutive run indices sweep small files densely), bit-rot of 1..3 bits, overwrite with a boundary byte (offsets biased to the first 64 bytes and to offsets the fault-free decode read with widths 1..8), a zeroed / duplicated / dropped block of 1..512 bytes; the fault-free decode of each pair is checked too; oracle C06: the decode returns - with a tree (possibly partial, error attached) or an error; a panic that escapes decode.Decode is a violation keyed by the innermost fq frame and the panic class; worker deaths from unbounded allocation and spins without I/O are counted as resource-inconclusive, not as violations; distinct = (pair, fault, first bytes) fingerprint; every faulted decode is non-trivial",
+		Real: hdecReal,
+		Stub: hdecStub,
+		Assumptions: append([]string{
+			"claims the fault dimension of the statement: the enumerable mutation family is sampled by seed, not exhausted",
+			"out-of-memory aborts and decodes that spin without touching the disk are outside the enumerated fault classes and are reported as resource-inconclusive with their top frame",
+			"process-level exit statuses under faults are covered by the whole-CLI harnesses (C05 errors configuration, C17)",
+		}, commonAssumptions...),
+		ExpectProbes: []string{"abort_eio_transient", "abort_eio_persistent", "abort_eof", "abort_cancel", "truncation", "bitrot", "byte_overwrite", "block_zeroed", "block_duplicated", "block_dropped", "abort_landed", "partial_tree_with_error", "cancel_observed", "fault_free_decodes"},
+	},
+	"C03": {
+		Stages: []Stage{
+			{Harness: "hdec", Config: "default", Quick: 60000, Thorough: 2000000, QuickSec: 75, ThoroughSec: 2400, MemGB: 4, HeapGB: 2},
+		},
+		Rule: "one run = one decode of a corpus sample (<= 16 KiB, thorough: sometimes <= 256 KiB) with its natural format, the probe or a foreign format, force on/off, through decode.Decode over IOBitReadSeeker(simulated disk) so that every field read is a disk call, under one tape-chosen storage fault: abort at the k-th disk call of the fault-free decode (transient EIO, persistent EIO, early EOF, cancel), truncation at a byte offset (consecutive run indices sweep small files densely), bit-rot of 1..3 bits, overwrite with a boundary byte (offsets biased to the first 64 bytes and to offsets the fault-free decode read with widths 1..8), a zeroed / duplicated / dropped block of 1..512 bytes; the fault-free decode of each pair is checked too; oracle C03 on every returned tree, complete or partial: ranges non-negative and (unless synthetic) inside the value's buffer, a compound's range (inner range for a buffer root) spans every non-synthetic non-root child, struct fields have unique names, non-decreasing start, index -1 and are found by name, array elements are numbered by position, child.parent is the parent, the root's range starts at the decode range; distinct = (pair, fault) fingerprint; every faulted decode is non-trivial",
+		Real: hdecReal,
+		Stub: hdecStub,
+		Assumptions: append([]string{
+			"claims the fault dimension (partial trees of failed, forced, truncated and corrupted decodes); the last sentence of the statement (generated decoder programs against a reference interpreter) is a pure function of the program and is not claimed",
+			"after an injected EIO the buffer length cannot be read back, so the inside-buffer clause is skipped for that run",
+		}, commonAssumptions...),
+		ExpectProbes: []string{"partial_tree_with_error", "values_walked", "abort_landed", "truncation", "bitrot"},
+	},
+	"C04": {
+		Stages: []Stage{
+			{Harness: "hdec", Config: "default", Quick: 60000, Thorough: 2000000, QuickSec: 75, ThoroughSec: 2400, MemGB: 4, HeapGB: 2},
+		},
+		Rule: "one run = one decode of a corpus sample (<= 16 KiB, thorough: sometimes <= 256 KiB) with its natural format, the probe or a foreign format, force on/off, through decode.Decode over IOBitReadSeeker(simulated disk) so that every field read is a disk call, under one tape-chosen storage fault: abort at the k-th disk call of the fault-free decode (transient EIO, persistent EIO, early EOF, cancel), truncation at a byte offset (consecutive run indices sweep small files densely), bit-rot of 1..3 bits, overwrite with a boundary byte (offsets biased to the first 64 bytes and to offsets the fault-free decode read with widths 1..8), a zeroed / duplicated / dropped block of 1..512 bytes; the fault-free decode of each pair is checked too; oracle C04 for the top-level buffer and every nested buffer root made by a format decode: a bitmap of the leaf ranges of that root covers [0, length) completely, no gap leaf intersects a field leaf, and (top level) the bits of every gap equal the stored bits of its range; a failed decode that returns a tree must show the undecoded tail as gaps; distinct = (pair, fault) fingerprint; every faulted decode is non-trivial",
+		Real: hdecReal,
+		Stub: hdecStub,
+		Assumptions: append([]string{
+			"claims the fault dimension; the exhaustive small-buffer check of the gap computation is a pure function and is not claimed",
+			"after an injected EIO or early EOF coverage and gap content are not compared (the buffer cannot be read back)",
+		}, commonAssumptions...),
+		ExpectProbes: []string{"buffers_covered", "gaps_checked", "partial_tree_with_error", "truncation"},
+	},
 	"C18": {
 		Stages: []Stage{
 			{Harness: "hconc", Config: "default", Quick: 400, Thorough: 20000, QuickSec: 65, ThoroughSec: 1500, MemGB: 10},
